@@ -22,7 +22,8 @@ OBLIGATIONS = ["call_forms_agree", "slice_spec", "slice_compose", "matrix_slice_
                "cond_call_forms_agree", "call_forms_agree_all", "cond_slice_spec", "cond_slice_spec_no_neutral",
                "slice_spec_all", "cond_slice_compose", "slice_compose_all",
                "slice_exceptions_spec", "slice_succeeds_iff", "gv_dict_exceptions_spec", "gv_list_exceptions_spec",
-               "call_kw_exceptions_spec"]
+               "call_kw_exceptions_spec", "slice_compose_exceptions", "slice_compose_succeeds",
+               "cond_slice_exceptions_spec", "cond_gv_dict_exceptions_spec"]
 N_QUICK, N_THOROUGH = 100, 600         # batches of 10 sub-cases each
 PARALLEL = 8
 SHARD = 12
@@ -36,29 +37,46 @@ RULE = ("seeded batches of ~10 sub-cases, each batch run in a fresh python under
         "0-3 slicing steps on random sub-assignments (dict order shuffled), then all (at most 8 sampled) "
         "completions probed through r(**kw), r(*args), r(dict), get_value_for_assignment(dict|list); "
         "~15% malformed stream (unknown / out-of-domain / too many variables, wrong arity, shape "
-        "mismatch). non-trivial = at least one slicing step or >= 2 variables; distinct = distinct "
+        "mismatch), bad slicing steps also on ~6% of the well-formed steps, and ~10% exception-focused "
+        "sub-cases (well-formed non-conditional relation keeping its variables, three kinds of malformed "
+        "calls: missing / extra / out-of-domain / unknown). non-trivial = at least one slicing step or >= 2 variables; distinct = distinct "
         "sub-case JSON")
 MODELLED = ("all 8 relation kinds, construction (variable->argument mapping), the five call forms, slice "
             "and dimensions are modelled (M_RelKinds.v). Theorems (all orders of the variable list, all "
             "iteration orders of the expression's variable set): call_forms_agree, slice_spec, "
             "slice_compose, matrix_slice_order_irrelevant, expr_value_set_order_irrelevant for the 6 "
-            "non-conditional kinds; conditional relations: two _partial theorems (decided condition) "
-            "and cond_false_zeroary_refuted; the undecided-condition slice, call forms of conditionals "
-            "and every exception path are checked by the correspondence run only")
+            "non-conditional kinds; conditional relations (P_RelKinds2): cond_call_forms_agree / "
+            "call_forms_agree_all (all 8 kinds), cond_slice_spec / slice_spec_all (every partial assignment, "
+            "deciding the condition or not, return_neutral=True; cond_slice_spec_no_neutral = every slice but "
+            "the known finding), cond_slice_compose / slice_compose_all (nested partially sliced "
+            "conditionals included), cond_false_zeroary_refuted; exceptions (P_RelKinds3): which malformed "
+            "slice / dict call / list call / keyword call of a non-conditional relation raises which "
+            "exception, as equivalences (slice_exceptions_spec, slice_succeeds_iff, gv_dict_exceptions_spec, "
+            "gv_list_exceptions_spec, call_kw_exceptions_spec); the oracle restates these equivalences "
+            "independently on the implementation; slice_compose_exceptions / slice_compose_succeeds: a second "
+            "step fails iff the one-step slice fails, same exception; cond_slice_exceptions_spec / "
+            "cond_gv_dict_exceptions_spec: exceptions of a conditional in terms of those of its parts "
+            "(P_RelKinds4). Only the correspondence run checks: the list / positional call exceptions of "
+            "conditional relations, construction failures")
 META = dict(
     level_text=("Proof (Coq) about an executable model of pydcop/dcop/relations.py + "
                 "utils/expressionfunction.py: for the matrix, expression, python-function, unary, boolean, "
                 "zero-ary and neutral kinds the keyword, positional, dict and list call forms agree; slicing "
                 "yields exactly the remaining variables and agrees with the original on every completion, in "
                 "one step or several, for every order of the variable list and every iteration order of the "
-                "expression's variable set (hash seed). Conditional relations: partial (slices that decide the "
-                "condition) plus a refutation witness for return_neutral=False (known finding). The model is "
+                "expression's variable set (hash seed). Conditional relations (return_neutral=True): the call "
+                "forms agree, and slicing on any partial assignment (deciding the condition or not, nested "
+                "partially sliced conditionals included) yields a well-formed relation over exactly the "
+                "remaining variables that agrees with the original on every completion, in one step or several; "
+                "return_neutral=False: the same except for the slice of the known finding (refutation witness). "
+                "For the non-conditional kinds the malformed slices and calls that raise, and the exception "
+                "each raises, are characterised by equivalences. The model is "
                 "tied to the code by a differential run under several PYTHONHASHSEED values on every check."),
     level_note=("Trusted: Coq kernel/vm_compute, the hand-written model M_RelKinds.v, the harness. "
                 "Values are ints; expression bodies use + - * abs; variable names of one relation are "
-                "pairwise distinct; relations are named. Undecided-condition slices and call forms of "
-                "conditional relations, and all exception paths, rest on the correspondence run. "
-                "See design_notes/C11.md."),
+                "pairwise distinct; a name shared by the condition and the consequence of a conditional "
+                "denotes the same Variable; relations are named. Exceptions raised by conditional relations "
+                "and by constructors rest on the correspondence run. See design_notes/C11.md."),
     technique="Coq proof over executable Gallina model + differential correspondence run under several hash seeds",
     design_ref="DESIGN.md §5 C11",
 )
@@ -248,7 +266,7 @@ def gen_sub(rng):
     for _ in range(rng.choice([0, 1]) if focus else rng.choice([0, 1, 1, 2, 2, 3])):
         if (malformed and rng.random() < 0.4) or rng.random() < (0.4 if focus else 0.06):   # bad steps also on well-formed relations
             valid = False
-            kind = rng.choice(["unknown", "ood", "again", "toomany"])
+            kind = rng.choice(["unknown", "ood", "ood", "again", "toomany"])
             keys = rng.sample(remaining, rng.randint(0, len(remaining)))
             p = [[v, rng.choice(doms[str(v)])] for v in keys]
             if kind == "unknown":
